@@ -45,7 +45,30 @@ func runSignal(f []string) (obs string) {
 	instances, _ := strconv.Atoi(f[3])
 	workUs, _ := strconv.Atoi(f[4])
 	bufBytes, _ := strconv.Atoi(f[5])
-	return runProc(f[1], delay, instances, workUs, bufBytes, 0)
+	return runProc(f[1], delay, instances, workUs, bufBytes, 0, 0, destField(f, 6))
+}
+
+// destField: optional last field of the subprocess cases: "file" (default: destination: <file>) or
+// "stdout" (phout WITHOUT a destination: the results are the process' standard output, which the harness
+// connects to a file that already holds one line of earlier output).
+func destField(f []string, i int) string {
+	if len(f) > i {
+		return f[i]
+	}
+	return "file"
+}
+
+// end <shots> <instances> <work-us> <buffer-bytes> <dest>
+//
+// The same subprocess, no signal, no fault: the schedule holds <shots> tokens, the run ends normally and the
+// process exits by itself (exit "ok" = status 0). Every report is made before the pool finishes, so every id
+// of the side log must be in the result output.
+func runEnd(f []string) (obs string) {
+	shots, _ := strconv.Atoi(f[1])
+	instances, _ := strconv.Atoi(f[2])
+	workUs, _ := strconv.Atoi(f[3])
+	bufBytes, _ := strconv.Atoi(f[4])
+	return runProc("", 0, instances, workUs, bufBytes, 0, shots, destField(f, 5))
 }
 
 // fail <after-shots> <instances> <work-us> <buffer-bytes>
@@ -59,7 +82,7 @@ func runFail(f []string) (obs string) {
 	instances, _ := strconv.Atoi(f[2])
 	workUs, _ := strconv.Atoi(f[3])
 	bufBytes, _ := strconv.Atoi(f[4])
-	return runProc("", 0, instances, workUs, bufBytes, after)
+	return runProc("", 0, instances, workUs, bufBytes, after, 0, destField(f, 5))
 }
 
 // stalled fires when the process made no progress for 45 s: its side log (one unbuffered line per report) did not
@@ -96,7 +119,10 @@ func stalled(side string, stop <-chan struct{}) <-chan struct{} {
 	return ch
 }
 
-func runProc(sigName string, delay, instances, workUs, bufBytes, failAfter int) (obs string) {
+// what the standard output of the subprocess holds before pandora starts (stdout cases)
+const stdoutBanner = "# results of pandora-verif follow\n"
+
+func runProc(sigName string, delay, instances, workUs, bufBytes, failAfter, shots int, dest string) (obs string) {
 	bin := os.Getenv("PANDORA_VERIF_BIN")
 	if bin == "" {
 		return "nobinary"
@@ -112,8 +138,31 @@ func runProc(sigName string, delay, instances, workUs, bufBytes, failAfter int) 
 	if bufBytes > 0 {
 		buffer = fmt.Sprintf("      buffer-size: %d\n", bufBytes)
 	}
+	destLine := "      destination: " + phout + "\n"
+	var stdout *os.File
+	if dest == "stdout" {
+		destLine = ""
+		phout = filepath.Join(dir, "stdout.log")
+		var err error
+		if stdout, err = os.OpenFile(phout, os.O_WRONLY|os.O_CREATE|os.O_APPEND, 0o644); err != nil {
+			return "setup-failed"
+		}
+		defer stdout.Close()
+		if _, err = stdout.WriteString(stdoutBanner); err != nil {
+			return "setup-failed"
+		}
+	} else if dest != "file" {
+		return "setup-failed"
+	}
+	rps := "      type: unlimited\n      duration: 600s\n"
+	if shots > 0 {
+		rps = fmt.Sprintf("      type: once\n      times: %d\n", shots)
+	}
+	// discard_overflow off: every report comes from the gun (and is in its side log); with it on the engine itself
+	// reports "discarded" samples for overdue schedule tokens, which the side log cannot see
 	conf := fmt.Sprintf(`pools:
   - id: p0
+    discard_overflow: false
     gun:
       type: verif-gun
       sidelog: %s
@@ -123,17 +172,15 @@ func runProc(sigName string, delay, instances, workUs, bufBytes, failAfter int) 
       type: dummy
     result:
       type: phout
-      destination: %s
-      id: true
+%s      id: true
 %s    rps:
-      type: unlimited
-      duration: 600s
-    startup:
+%s    startup:
       type: once
       times: %d
 log:
   level: error
-`, side, workUs, failAfter, phout, buffer, instances)
+  file: stderr
+`, side, workUs, failAfter, destLine, buffer, rps, instances)
 	confPath := filepath.Join(dir, "load.yaml")
 	if err := os.WriteFile(confPath, []byte(conf), 0o644); err != nil {
 		return "setup-failed"
@@ -143,6 +190,9 @@ log:
 	cmd.Dir = dir
 	cmd.Stdout = &out
 	cmd.Stderr = &out
+	if stdout != nil {
+		cmd.Stdout = stdout
+	}
 	if err := cmd.Start(); err != nil {
 		return "start-failed"
 	}
@@ -182,6 +232,8 @@ log:
 			exit = "second-signal"
 		case strings.Contains(text, "Engine interrupted") && rc == 1:
 			exit = "interrupted"
+		case rc == 0 && err == nil:
+			exit = "ok"
 		default:
 			exit = fmt.Sprintf("rc%d", rc)
 		}
@@ -222,6 +274,13 @@ log:
 	dup, malformed, foreignN := 0, 0, 0
 	var complete [][]byte
 	rest := data
+	if stdout != nil { // the stream must still begin with what it held before
+		if bytes.HasPrefix(data, []byte(stdoutBanner)) {
+			rest = data[len(stdoutBanner):]
+		} else {
+			malformed++
+		}
+	}
 	for len(rest) > 0 {
 		nl := bytes.IndexByte(rest, '\n')
 		if nl < 0 {
@@ -289,8 +348,34 @@ func genFail(r *vh.Rand, tier string) []string {
 		if i%3 == 0 { // full-speed reporters: the fault hits with a large unflushed buffer
 			out = append(out, fmt.Sprintf("fail %d 4 0 0", 150000+r.Intn(500000)))
 		} else {
-			out = append(out, fmt.Sprintf("fail %d %d %d %d", 1000+r.Intn(300000), r.PickInt([]int{1, 2, 4, 8}), r.PickInt([]int{0, 0, 5, 50}), r.PickInt([]int{0, 0, 65536, 1 << 20})))
+			out = append(out, fmt.Sprintf("fail %d %d %d %d %s", 1000+r.Intn(300000), r.PickInt([]int{1, 2, 4, 8}), r.PickInt([]int{0, 0, 5, 50}), r.PickInt([]int{0, 0, 65536, 1 << 20}), r.Pick([]string{"file", "file", "stdout"})))
 		}
+	}
+	return out
+}
+
+// normal-end shots (the run ends by itself): quick 2, thorough 40 (C06_END_SHOTS overrides); half of them with
+// the results on standard output; mostly runs shorter than the aggregator's flush period.
+func genEnd(r *vh.Rand, tier string) []string {
+	if os.Getenv("PANDORA_VERIF_BIN") == "" {
+		return nil
+	}
+	shots := 2
+	if tier == "thorough" {
+		shots = 40
+	}
+	if v, err := strconv.Atoi(os.Getenv("C06_END_SHOTS")); err == nil {
+		shots = v
+	}
+	var out []string
+	for i := 0; i < shots; i++ {
+		dest := []string{"stdout", "file"}[i%2]
+		n := r.PickInt([]int{1, 7, 500, 20000, 200000})
+		work := r.PickInt([]int{0, 0, 5, 50})
+		if i >= 2 && r.Chance(1, 4) { // a run longer than the flush period
+			n, work = 3000+r.Intn(3000), 1000
+		}
+		out = append(out, fmt.Sprintf("end %d %d %d %d %s", n, r.PickInt([]int{1, 2, 4, 8}), work, r.PickInt([]int{0, 0, 4096, 65536}), dest))
 	}
 	return out
 }
@@ -312,8 +397,8 @@ func genSignal(r *vh.Rand, tier string) []string {
 	if shots > 1 { // full-speed reporters: a large unflushed buffer at the signal
 		out = append(out, fmt.Sprintf("signal TERM %d 4 0 0", 350+r.Intn(300)))
 	}
-	if shots > 2 {
-		out = append(out, fmt.Sprintf("signal INT %d 2 20 65536", 300+r.Intn(900)))
+	if shots > 2 { // the results on standard output
+		out = append(out, fmt.Sprintf("signal INT %d 2 20 65536 stdout", 300+r.Intn(900)))
 	}
 	for i := 3; i < shots; i++ {
 		s := []string{"INT", "TERM"}[i%2]
@@ -321,7 +406,7 @@ func genSignal(r *vh.Rand, tier string) []string {
 		instances := r.PickInt([]int{1, 2, 4, 8})
 		work := r.PickInt([]int{0, 0, 0, 5, 50, 500, 5000})
 		buf := r.PickInt([]int{0, 0, 4096, 65536, 1 << 20})
-		out = append(out, fmt.Sprintf("signal %s %d %d %d %d", s, delay, instances, work, buf))
+		out = append(out, fmt.Sprintf("signal %s %d %d %d %d %s", s, delay, instances, work, buf, r.Pick([]string{"file", "file", "stdout"})))
 	}
 	return out
 }
